@@ -17,7 +17,8 @@
 (***************************************************************************)
 EXTENDS Strings, Rational
 
-CONSTANTS Letters, MaxLen, MaxRows, Keys, V2s, WeightVals, EdgeSets, Fns, Mutations
+CONSTANTS Letters, MaxLen, MaxRows, Keys, V2s, WeightVals, EdgeSets, Fns, Mutations,
+          MinGroups     \* only tables with at least this many distinct group keys (many-group configurations)
 
 VARIABLES fn, tab, opt, kept, parts, res, step
 vars == <<fn, tab, opt, kept, parts, res, step>>
@@ -50,6 +51,7 @@ Tables == UNION { [1..n -> Keys \X U \X V2s] : n \in 2..MaxRows }
 
 Init == /\ fn \in Fns
         /\ tab \in Tables
+        /\ Cardinality(KeysOf(tab)) >= MinGroups
         /\ opt \in (CASE fn = "pc_conditional" -> { [joint |-> j, w |-> w] : j \in BOOLEAN, w \in {<<>>} \cup [1..Cardinality(Keys) -> WeightVals] }
                       [] fn = "pc_grouped_cross" -> { [joint |-> j, w |-> <<>>] : j \in BOOLEAN }
                       [] fn \in {"pcDelta_grouped", "pcDelta_grouped_cross"} -> { [joint |-> FALSE, w |-> <<>>, edges |-> e, norm |-> nm] : e \in EdgeSets \cup {<<>>}, nm \in BOOLEAN }
